@@ -32,7 +32,7 @@ TTL_CHOICES = [1, 120, 1125, 1200, 2000, 4500, 9000]
 def floors(tier):
     q = tier == "quick"
     return {"c10.startup": 3000 if q else 300000, "c10.spacing": 15000 if q else 1500000, "c10.justified": 15000 if q else 1500000, "c10.liveness": 5000 if q else 500000,
-            "c10.liveness.last_step": 500 if q else 50000, "c10.hook_scheduler_passes": 10000 if q else 1000000}
+            "c10.liveness.last_step": 500 if q else 50000, "c10.liveness.step_size": 300 if q else 30000, "c10.hook_scheduler_passes": 10000 if q else 1000000}
 
 
 def plan(tier, seed):
@@ -373,6 +373,15 @@ def analyse(res: Result, sim: simnet.Sim, sc: Dict[str, Any], out: Dict[str, Any
                      "query for the type was sent in between and no scheduler pass less than one delay before the expiry explains it" % (
                          ep.alias, ep.ttl, a - B, nxt - B, expiry - B), last_step=True)
                 break
+        # 'further 10 percent steps': not more often either.  Judged when this record is the only one ever learned for its type in
+        # the scenario, so that every query for the type between its 75 % instant and its expiry is a refresh attempt for it.
+        if len(by_type.get(ep.type, {})) == 1 and len(by_type[ep.type].get(ep.alias, [])) == 1:
+            res.mon("c10.liveness.step_size")
+            for a1, a2 in zip(attempts, attempts[1:]):
+                if a2 - a1 < step - 1.0:
+                    viol("c10.liveness", "rescue_steps_too_small", "PTR %s (ttl %d), the only record of its type: refresh queries at +%.0f and +%.0f ms are %.0f ms apart, "
+                         "a 10 %% step is %.0f ms" % (ep.alias, ep.ttl, a1 - B, a2 - B, a2 - a1, step))
+                    break
         res.cls("liveness", "ttl=%d" % ep.ttl, "rescues=%d" % steps)
     # Removed-by-expiry events must correspond to expired epochs
     fates = sorted({ev.get("fate", "-") for ev in sc["events"] if "fate" in ev})
